@@ -485,37 +485,69 @@ example : Bearing.cut ≤ (Bearing.bearingDistance (0 : ℝ) 0 1 0).2 := by
 
 /-! ## Literal recognisers (intfloat.h) -/
 
-/-- HISTORY — about code the tree no longer contains (the ORIGINAL `IsInteger`, before fix 5c79698; the current
-    recogniser is characterised by `C18_isIntegerCur_grammar`).  The original accepts exactly: white space, an optional
-    sign, decimal digits (possibly none!), white space, not everything empty -/
-theorem C18_isInteger_language (s : List Char) :
-    Literals.isInteger s = true ↔
+/-- the recogniser of the CURRENT tree (`Literals.isIntegerCur`: the variant of `GNU_gama::IsInteger` selected by the flag
+    regenerated from intfloat.h; it is what `drv_geo` executes and what the C++ at HEAD answers): accepted ⇔ after the
+    optional sign there is at least one character and only digits; in particular an accepted literal contains a digit -/
+theorem C18_isInteger_requires_digit (s : List Char) :
+    (Literals.isIntegerCur s = true ↔
+      Literals.skipSign (Literals.trim s) ≠ [] ∧ ∀ c ∈ Literals.skipSign (Literals.trim s), Literals.isDigit c = true) ∧
+    (Literals.isIntegerCur s = true → ∃ c ∈ s, Literals.isDigit c = true) := by
+  have hv : Gen.isIntegerNeedsDigit = true := C18_tree_has_repaired_variants.2.2.2.2.2
+  unfold Literals.isIntegerCur; rw [hv]
+  exact ⟨Literals.isIntegerWith_true_iff s, Literals.isIntegerWith_true_has_digit s⟩
+
+/-- FULL, about the CURRENT code: `IsInteger` accepts EXACTLY the documented format `ws* [+-]? D+ ws*` (every string;
+    induction over the scanner, `Grammar.integerRx`) -/
+theorem C18_isInteger_grammar (s : List Char) :
+    Literals.isIntegerCur s = true ↔ Grammar.integerRx.Lang s := by
+  have hv : Gen.isIntegerNeedsDigit = true := C18_tree_has_repaired_variants.2.2.2.2.2
+  unfold Literals.isIntegerCur; rw [hv]
+  exact Literals.isIntegerWith_true_grammar s
+
+/-- HISTORY — the ORIGINAL `IsInteger` (before fix 5c79698; `Literals.isIntegerWith false`, also named
+    `Literals.isInteger` in the model file: NOT the code of the tree) accepted exactly: white space, an optional sign,
+    decimal digits (possibly none!), white space, not everything empty -/
+theorem C18_isInteger_original_language (s : List Char) :
+    Literals.isIntegerWith false s = true ↔
       Literals.trim s ≠ [] ∧ ∃ sg ds, Literals.trim s = sg ++ ds ∧ (sg = [] ∨ sg = ['+'] ∨ sg = ['-']) ∧
         (∀ c ∈ ds, Literals.isDigit c = true) :=
   Literals.isInteger_iff s
 
-/-- the statement "an accepted integer literal contains a digit" was FALSE for the ORIGINAL code (before fix 5c79698):
-    a lone sign was accepted (regression input corpus/C18/lit-f16-isint-sign-only.txt) -/
-theorem C18_isInteger_requires_digit_violated :
-    ¬ (∀ s : List Char, Literals.isInteger s = true → ∃ c ∈ s, Literals.isDigit c = true) := by
-  intro h
-  have := h ['+'] (by decide)
-  revert this
-  decide
-
-/-- the REPAIRED recogniser (notes/proposed/C18-isinteger-sign-only.diff): accepted ⇔ after the optional sign there
-    is at least one character and only digits; in particular an accepted literal contains a digit -/
-theorem C18_isInteger_requires_digit (s : List Char) :
-    (Literals.isIntegerWith true s = true ↔
-      Literals.skipSign (Literals.trim s) ≠ [] ∧ ∀ c ∈ Literals.skipSign (Literals.trim s), Literals.isDigit c = true) ∧
-    (Literals.isIntegerWith true s = true → ∃ c ∈ s, Literals.isDigit c = true) :=
-  ⟨Literals.isIntegerWith_true_iff s, Literals.isIntegerWith_true_has_digit s⟩
-
-/-- FULL: the repaired `IsInteger` accepts EXACTLY the documented format `ws* [+-]? D+ ws*` (every string; induction over
-    the scanner, `Grammar.integerRx`) -/
-theorem C18_isInteger_grammar (s : List Char) :
-    Literals.isIntegerWith true s = true ↔ Grammar.integerRx.Lang s :=
-  Literals.isIntegerWith_true_grammar s
+/-- HISTORY / NEG: "an accepted integer literal contains a digit" was FALSE for the ORIGINAL code: a lone sign was accepted
+    (regression input corpus/C18/lit-f16-isint-sign-only.txt); the current recogniser refuses exactly those strings
+    (lone `+`, lone `-`) and agrees with the original everywhere else -/
+theorem C18_isInteger_original_differs :
+    ¬ (∀ s : List Char, Literals.isIntegerWith false s = true → ∃ c ∈ s, Literals.isDigit c = true) ∧
+    Literals.isIntegerWith false ['+'] = true ∧ Literals.isIntegerCur ['+'] = false ∧ Literals.isIntegerCur ['-'] = false ∧
+    (∀ s : List Char, Literals.isIntegerCur s = true → Literals.isIntegerWith false s = true) := by
+  refine ⟨?_, by decide, by decide, by decide, ?_⟩
+  · intro h
+    have := h ['+'] (by decide)
+    revert this
+    decide
+  · intro s h
+    have hv : Gen.isIntegerNeedsDigit = true := C18_tree_has_repaired_variants.2.2.2.2.2
+    unfold Literals.isIntegerCur at h; rw [hv] at h
+    obtain ⟨hne, hd⟩ := (Literals.isIntegerWith_true_iff s).mp h
+    rw [show Literals.isIntegerWith false s = Literals.isInteger s from rfl, Literals.isInteger_iff]
+    have htrim : Literals.trim s ≠ [] := by
+      intro e; rw [e] at hne; exact hne (by decide)
+    refine ⟨htrim, ?_⟩
+    cases ht : Literals.trim s with
+    | nil => exact absurd ht htrim
+    | cons c cs =>
+      by_cases hc : c = '+' ∨ c = '-'
+      · refine ⟨[c], cs, rfl, ?_, ?_⟩
+        · rcases hc with rfl | rfl <;> simp
+        · rw [ht] at hd
+          rcases hc with rfl | rfl <;> simpa [Literals.skipSign] using hd
+      · refine ⟨[], c :: cs, rfl, Or.inl rfl, ?_⟩
+        rw [ht] at hd
+        have : Literals.skipSign (c :: cs) = c :: cs := by
+          unfold Literals.skipSign
+          rw [not_or] at hc
+          split <;> simp_all
+        rw [this] at hd; exact hd
 
 /-- FULL: `IsFloat` accepts EXACTLY `ws* [+-]? ( D+ (. D*)? | . D+ ) ( [eE] [+-]? D+ )? ws*` (every string) -/
 theorem C18_isFloat_grammar (s : List Char) : Literals.isFloat s = true ↔ Grammar.floatRx.Lang s :=
@@ -555,26 +587,12 @@ theorem C18_isFloat_has_digit (s : List Char) (h : Literals.isFloat s = true) :
     (∃ c ∈ Literals.trim s, Literals.isDigit c = true) :=
   Literals.isFloat_has_digit s h
 
-/-- the recogniser the tree contains is the repaired one -/
-theorem C18_isInteger_current (s : List Char) (h : Literals.isIntegerCur s = true) : ∃ c ∈ s, Literals.isDigit c = true := by
-  have hv : Gen.isIntegerNeedsDigit = true := C18_tree_has_repaired_variants.2.2.2.2.2
-  unfold Literals.isIntegerCur at h; rw [hv] at h
-  exact Literals.isIntegerWith_true_has_digit s h
-
-/-- the recogniser the drivers run (`isIntegerCur`, the variant selected by the regenerated flag) accepts EXACTLY the
-    documented format -/
-theorem C18_isIntegerCur_grammar (s : List Char) :
-    Literals.isIntegerCur s = true ↔ Grammar.integerRx.Lang s := by
-  have hv : Gen.isIntegerNeedsDigit = true := C18_tree_has_repaired_variants.2.2.2.2.2
-  unfold Literals.isIntegerCur; rw [hv]
-  exact Literals.isIntegerWith_true_grammar s
-
 example : Grammar.floatRx.accepts "+1.5e-3".toList = true ∧ Grammar.floatRx.accepts " 5. ".toList = true
     ∧ Grammar.floatRx.accepts "1e".toList = false ∧ Grammar.integerRx.accepts " -12 ".toList = true
     ∧ Grammar.integerRx.accepts "+".toList = false ∧ Grammar.dmsRx.accepts " -10-21-00.00".toList = true
     ∧ Grammar.dmsRx.accepts "+-0-0-0".toList = true ∧ Grammar.dmsRx.accepts "1-2--3".toList = false
     ∧ Grammar.dmsRx.accepts "1-2-+3".toList = false ∧ Grammar.dmsRx.accepts "1- 2-3".toList = false := by decide
-example : Literals.isInteger " -12 ".toList = true ∧ Literals.isInteger "1 2".toList = false
+example : Literals.isIntegerCur " -12 ".toList = true ∧ Literals.isIntegerCur "1 2".toList = false ∧ Literals.isIntegerCur "+".toList = false
     ∧ Literals.isFloat "+1.5e-3".toList = true ∧ Literals.isFloat ".".toList = false
     ∧ Literals.isFloat "1e".toList = false ∧ Literals.isFloat " 5. ".toList = true := by decide
 
